@@ -254,20 +254,26 @@ Section Gauss.
     match cs with [] => 0 | c :: t => c * xi + poly_from t x (Qred (xi * x)) end.
   Definition poly (cs : list Q) (x : Q) : Q := Qred (poly_from cs x 1).
 
-  (* the widths and weights computed before any component is added; None = "return spectrum" *)
+  (* stark.pyx:262-276: total FWHM from the two part widths *)
+  Definition stark_fwhm_full (fwhm_lorentz fwhm_gauss : Q) : Q :=
+    if Qle_bool fwhm_gauss fwhm_lorentz
+    then Qred (poly poly_gauss (Qred (fwhm_gauss / fwhm_lorentz)) * fwhm_lorentz)
+    else Qred (poly poly_lorentz (Qred (fwhm_lorentz / fwhm_gauss)) * fwhm_gauss).
+
+  (* stark.pyx:278-294: (lorentz_weight, gauss_weight, sigma, fwhm_full) *)
+  Definition stark_weights (fwhm_lorentz fwhm_full : Q) : Q * Q * Q * Q :=
+    let sigma := Qred (fwhm_full / sigma2fwhm) in
+    let l2t := Qred (fwhm_lorentz / fwhm_full) in
+    if Qltb l2t (1 # 100) then (0, 1 - 0, sigma, 0)          (* fwhm_full = 0: add_lorentzian_line returns at once *)
+    else if Qltb (999 # 1000) l2t then (1, 1 - 1, 0, fwhm_full) (* sigma = 0: add_gaussian_line returns at once *)
+    else let lw := expQ (poly poly_weight (lnQ l2t)) in (lw, 1 - lw, sigma, fwhm_full).
+
+  (* the widths and weights computed before any component is added; None = "return spectrum" (stark.pyx:250-260) *)
   Definition stark_widths (cij aij bij : Q) (w m ne te ts : Q) : option (Q * Q * Q * Q) :=
     let fwhm_lorentz := if Qltb 0 ne && Qltb 0 te then Qred (cij * powQ ne aij / powQ te bij) else 0 in
     let fwhm_gauss := if Qltb 0 ts then Qred (sigma2fwhm * thermal_broadening w ts m) else 0 in
-    if Qeq_bool fwhm_lorentz 0 && Qeq_bool fwhm_gauss 0 then None else
-    let fwhm_full :=
-        if Qle_bool fwhm_gauss fwhm_lorentz
-        then Qred (poly poly_gauss (Qred (fwhm_gauss / fwhm_lorentz)) * fwhm_lorentz)
-        else Qred (poly poly_lorentz (Qred (fwhm_lorentz / fwhm_gauss)) * fwhm_gauss) in
-    let sigma := Qred (fwhm_full / sigma2fwhm) in
-    let l2t := Qred (fwhm_lorentz / fwhm_full) in
-    if Qltb l2t (1 # 100) then Some (0, 1 - 0, sigma, 0)                         (* lorentz_weight, gauss_weight, sigma, fwhm_full *)
-    else if Qltb (999 # 1000) l2t then Some (1, 1 - 1, 0, fwhm_full)
-    else let lw := expQ (poly poly_weight (lnQ l2t)) in Some (lw, 1 - lw, sigma, fwhm_full).
+    if Qeq_bool fwhm_lorentz 0 && Qeq_bool fwhm_gauss 0 then None
+    else Some (stark_weights fwhm_lorentz (stark_fwhm_full fwhm_lorentz fwhm_gauss)).
 
   Definition stark_pair (gw lw cr lam sigma fwhm_full : Q) : list comp :=
     [GaussC (gw * cr) lam sigma; LorC (lw * cr) lam fwhm_full].
